@@ -71,6 +71,10 @@ fn body_recurse(
                     Some(TokenTree::Punct(punct)) if ['#', '=', ':'].contains(&punct.as_char()) => {
                         lines.last_mut().unwrap().push(' ');
                     }
+                    // a word right after the interpolated value would fuse with it
+                    Some(TokenTree::Ident(_)) | Some(TokenTree::Literal(_)) => {
+                        lines.last_mut().unwrap().push(' ');
+                    }
                     _ => {}
                 }
             }
@@ -141,6 +145,13 @@ fn body_recurse(
                 // the lines become a format string: braces inside a literal are text, not placeholders
                 let text = literal.to_string().replace('{', "{{").replace('}', "}}");
                 lines.last_mut().unwrap().push_str(&text);
+                // a word right after a literal would fuse with it (`1 if x` must not become `1if x`)
+                match toks.peek() {
+                    Some(TokenTree::Ident(_)) | Some(TokenTree::Literal(_)) => lines.last_mut().unwrap().push(' '),
+                    // ... and so would an interpolated value
+                    Some(TokenTree::Punct(punct)) if punct.as_char() == '#' => lines.last_mut().unwrap().push(' '),
+                    _ => {}
+                }
             }
             None => {
                 break;
